@@ -385,7 +385,8 @@ impl<'a> HeaderValueEncoder<'a> {
 }
 
 fn allowed_str(s: &str) -> bool {
-    s.bytes().all(allowed_char)
+    // "=?" could make a reader take the word for an RFC 2047 encoded-word
+    s.bytes().all(allowed_char) && !s.contains("=?")
 }
 
 const fn allowed_char(c: u8) -> bool {
